@@ -5,5 +5,8 @@ cd /repo || exit 9
 if [ -n "$(git status --porcelain)" ]; then echo "repo dirty"; exit 9; fi
 git apply "$PATCH" || { echo "patch does not apply"; exit 9; }
 cd /verif
+# the evidence of a run on a mutated tree must not replace the evidence of the unchanged tree
+KEEP=$(mktemp); cp evidence/$P.json $KEEP 2>/dev/null
 timeout 1500 ./check $P --tier $TIER 2>&1 | grep -E "^VIOLATION|^INCONCLUSIVE|^HARNESS-ERROR|^KNOWN|exit [0-9]|harness=" | cut -c1-300 | head -${4:-8}
 git -C /repo checkout -- . ; git -C /repo clean -fdq typhon 2>/dev/null
+[ -s $KEEP ] && cp $KEEP evidence/$P.json; rm -f $KEEP
